@@ -565,6 +565,96 @@ def injective(ctx):
         ctx.saw('no collision')
 
 
+@PROP.obligation('C06.block-readers-agree', canaries=[
+    mut.replace_expr('blocks', 'Block.parse_transaction', 'Transaction.parse_bytesio(self.txs_data, strict=False, network=self.network)', 'Transaction.parse_bytesio(self.txs_data, network=self.network)', 'incremental block reader parses strictly'),
+    mut.replace_expr('blocks', 'Block.parse_bytesio', 'Transaction.parse_bytesio(raw, strict=False, network=network, index=index)', 'Transaction.parse_bytesio(raw, strict=False, index=index)', 'eager block reader parses on the default network'),
+])
+def block_readers_agree(ctx):
+    """The three block readers (Block.parse_bytesio eager loop, Block.parse_transactions, Block.parse_transaction) call
+    Transaction.parse_bytesio the same way: strict=False (blocks contain non-standard scripts; a strict reader raises on them) and the
+    network of the block (otherwise addresses and values of the transactions are reported on the default network)."""
+    m = ctx.repo.mod('blocks')
+    sites = []
+    for q, f in m.functions.items():
+        for c in ast.walk(f):
+            if isinstance(c, ast.Call) and norm(c.func) == 'Transaction.parse_bytesio':
+                kw = {k.arg: norm(k.value) for k in c.keywords}
+                pos = [norm(a) for a in c.args]
+                sites.append((q, c, kw, pos))
+    ctx.floor(len(sites), 3, 'Transaction.parse_bytesio call sites in blocks.py')
+    for q, c, kw, pos in sites:
+        qual = 'blocks:%s' % q
+        ctx.saw('%s: parse_bytesio(%s)' % (qual, ', '.join(pos[1:] + ['%s=%s' % kv for kv in sorted(kw.items())])))
+        strict = kw.get('strict', pos[1] if len(pos) > 1 else None)
+        net = kw.get('network', pos[2] if len(pos) > 2 else None)
+        if strict is None:
+            ctx.violate(qual, 'this block reader calls Transaction.parse_bytesio without strict=False while its siblings pass it', c,
+                        'blocks with non-standard scripts or data-only witness items cannot be read through this reader')
+        elif strict != 'False':
+            ctx.unsure('%s: strict=%s' % (qual, strict))
+        if net is None:
+            ctx.violate(qual, 'this block reader calls Transaction.parse_bytesio without the network of the block while its siblings pass it', c,
+                        'Block.parse(raw, parse_transactions=True, network=litecoin) reports bitcoin addresses for the outputs')
+        elif net not in ('network', 'self.network', 'self.network.name'):
+            ctx.unsure('%s: network=%s' % (qual, net))
+
+
+@PROP.obligation('C06.version-writers', canaries=[
+    mut.replace_expr('transactions', 'Transaction.sign_and_update', "self.version_int.to_bytes(4, 'big')", "self.version_int.to_bytes(4, 'little')", 'version bytes rebuilt little endian'),
+    mut.replace_expr('transactions', 'Transaction.add_input', "b'\\x00\\x00\\x00\\x02'", "b'\\x02\\x00\\x00\\x00'", 'version bytes of the BIP68 upgrade in wire order'),
+])
+def version_writers(ctx):
+    """Transaction.version is stored big-endian (raw() writes it reversed; the constructor stores int.to_bytes(4, 'big')). EVERY assignment
+    to a `.version` attribute in transactions.py, wallets.py and blocks.py must follow that convention: `<int>.to_bytes(4, 'big')`, a
+    4-byte constant that is the big-endian form of the version_int assigned beside it, a copy of another object's `.version`, or the
+    constructor's bytes argument. A little-endian writer makes the wire bytes disagree with version_int."""
+    n = 0
+    for modname in ('transactions', 'wallets', 'blocks'):
+        m = ctx.repo.mod(modname)
+        for q, f in m.functions.items():
+            body_assigns = [x for x in ast.walk(f) if isinstance(x, ast.Assign)]
+            for a_ in body_assigns:
+                t = a_.targets[0]
+                if not (isinstance(t, ast.Attribute) and t.attr == 'version'):
+                    continue
+                n += 1
+                v = a_.value
+                qual = '%s:%s' % (modname, q)
+                txt = norm(v)
+                ok = None
+                if isinstance(v, ast.Call) and isinstance(v.func, ast.Attribute) and v.func.attr == 'to_bytes':
+                    args = [norm(x) for x in v.args] + ['%s=%s' % (k.arg, norm(k.value)) for k in v.keywords]
+                    order = [x for x in args if 'big' in x or 'little' in x]
+                    if args and args[0] == '4' and order and 'big' in order[0]:
+                        ok = True
+                    elif order and 'little' in order[0]:
+                        ok = False
+                elif isinstance(v, ast.Constant) and isinstance(v.value, bytes) and len(v.value) == 4:
+                    # the version_int assigned in the same block
+                    sib = [norm(b.value) for b in body_assigns if isinstance(b.targets[0], ast.Attribute) and b.targets[0].attr == 'version_int' and norm(b.targets[0].value) == norm(t.value)
+                           and isinstance(b.value, ast.Constant) and abs(b.lineno - a_.lineno) <= 2]
+                    if sib:
+                        ok = int.from_bytes(v.value, 'big') == int(sib[0])
+                elif isinstance(v, ast.Attribute) and v.attr == 'version':
+                    ok = True
+                elif isinstance(v, ast.Name) and v.id == 'version':
+                    ok = True
+                elif isinstance(v, ast.Call) and norm(v.func) == 'to_bytes' and len(v.args) == 1 and norm(v.args[0]) == 'version':
+                    ok = True
+                elif isinstance(v, ast.Subscript) and txt.endswith('[::-1]'):
+                    ok = False
+                ctx.saw('%s: %s = %s' % (qual, norm(t), txt))
+                if ok is False:
+                    ctx.violate(qual, '`%s = %s` stores the version in another byte order than the big-endian convention of Transaction.version' % (norm(t), txt), a_,
+                                'version_int says 2 while the serialised transaction carries version 0x02000000; re-parsing gives another transaction id')
+                elif ok is None:
+                    ctx.unsure('%s: version writer `%s` not recognised' % (qual, txt))
+    ctx.floor(n, 8, 'assignments to a .version attribute')
+    # the reader side of the convention
+    raw = ctx.repo.func('transactions:Transaction.raw')
+    ctx.require(any(norm(x) == 'self.version[::-1]' for x in ast.walk(raw) if isinstance(x, ast.Subscript)), 'transactions:Transaction.raw', 'raw() no longer writes self.version reversed', raw)
+
+
 @PROP.obligation('C06.cache-keys')
 def cache_keys(ctx):
     """Memoisation (serialisations and ids): every container that a function both looks up and stores into is found (none exists on the reference tree; a
